@@ -59,23 +59,25 @@ pub struct FeeStats { pub counterparty_balance_msat: u64, pub dust_exposure_msat
 pub struct FeeChannelStats { pub commitment_stats: FeeStats }
 // both reserves of the real FundingScope (a change that subtracts the other side's reserve is verified, not rejected)
 pub struct FeeFundingScope { pub holder_selected_channel_reserve_satoshis: u64, pub counterparty_selected_channel_reserve_satoshis: Option<u64>, pub ct: ChannelTypeFeatures }
-impl FeeFundingScope { #[verifier::external_body] pub fn get_channel_type(&self) -> (r: &ChannelTypeFeatures) { unimplemented!() } }
+impl FeeFundingScope { #[verifier::external_body] pub fn get_channel_type(&self) -> (r: &ChannelTypeFeatures) ensures *r == self.ct { unimplemented!() } }
 pub enum ChannelError { Close(u8) }
 impl ChannelError { #[verifier::external_body] pub fn close(_m: u8) -> (r: ChannelError) { unimplemented!() } }
 pub struct FeeCtx {}
 // what the two commitment transactions would look like at the proposed feerate (get_next_commitment_stats, proved in unit u01)
-pub uninterp spec fn local_stats_at(c: FeeCtx, f: FeeFundingScope, feerate: u32) -> FeeChannelStats;
-pub uninterp spec fn remote_stats_at(c: FeeCtx, f: FeeFundingScope, feerate: u32) -> FeeChannelStats;
+// the statistics of the next commitment, as a function of everything the caller chooses: whether HTLCs the counterparty does not know yet are counted, how many further non-dust HTLCs, the feerate, whether a fee spike is assumed, and the feerate that limits dust exposure
+pub uninterp spec fn local_stats_at(c: FeeCtx, f: FeeFundingScope, include_unknown: bool, addl: usize, feerate: u32, spike: bool, lim: Option<u32>) -> FeeChannelStats;
+pub uninterp spec fn remote_stats_at(c: FeeCtx, f: FeeFundingScope, include_unknown: bool, addl: usize, feerate: u32, spike: bool, lim: Option<u32>) -> FeeChannelStats;
+pub uninterp spec fn limiting_feerate_of(c: FeeCtx, ct: ChannelTypeFeatures) -> Option<u32>;
 pub uninterp spec fn max_dust_exposure(c: FeeCtx, limiting: Option<u32>) -> u64;
 impl FeeCtx {
-    #[verifier::external_body] pub fn get_dust_exposure_limiting_feerate<F: FeeEstimator>(&self, fee_estimator: &&LowerBoundedFeeEstimator<F>, ct: &ChannelTypeFeatures) -> (r: Option<u32>) { unimplemented!() }
+    #[verifier::external_body] pub fn get_dust_exposure_limiting_feerate<F: FeeEstimator>(&self, fee_estimator: &&LowerBoundedFeeEstimator<F>, ct: &ChannelTypeFeatures) -> (r: Option<u32>) ensures r == limiting_feerate_of(*self, *ct) { unimplemented!() }
     #[verifier::external_body] pub fn get_max_dust_htlc_exposure_msat(&self, limiting: Option<u32>) -> (r: u64) ensures r == max_dust_exposure(*self, limiting) { unimplemented!() }
     #[verifier::external_body] pub fn get_next_local_commitment_stats(&self, funding: &FeeFundingScope, htlc_candidate: Option<HTLCAmountDirection>, include_counterparty_unknown_htlcs: bool,
         addl_nondust_htlc_count: usize, feerate_per_kw: u32, assume_fee_spike: bool, dust_exposure_limiting_feerate: Option<u32>) -> (r: Result<(FeeChannelStats, Vec<HTLCAmountDirection>), ()>)
-        ensures r is Ok ==> r->Ok_0.0 == local_stats_at(*self, *funding, feerate_per_kw) { unimplemented!() }
+        ensures r is Ok ==> htlc_candidate is None && r->Ok_0.0 == local_stats_at(*self, *funding, include_counterparty_unknown_htlcs, addl_nondust_htlc_count, feerate_per_kw, assume_fee_spike, dust_exposure_limiting_feerate) { unimplemented!() }
     #[verifier::external_body] pub fn get_next_remote_commitment_stats(&self, funding: &FeeFundingScope, htlc_candidate: Option<HTLCAmountDirection>, include_counterparty_unknown_htlcs: bool,
         addl_nondust_htlc_count: usize, feerate_per_kw: u32, assume_fee_spike: bool, dust_exposure_limiting_feerate: Option<u32>) -> (r: Result<(FeeChannelStats, Vec<HTLCAmountDirection>), ()>)
-        ensures r is Ok ==> r->Ok_0.0 == remote_stats_at(*self, *funding, feerate_per_kw) { unimplemented!() }
+        ensures r is Ok ==> htlc_candidate is None && r->Ok_0.0 == remote_stats_at(*self, *funding, include_counterparty_unknown_htlcs, addl_nondust_htlc_count, feerate_per_kw, assume_fee_spike, dust_exposure_limiting_feerate) { unimplemented!() }
 //@extract lightning/src/ln/channel.rs :: impl ChannelContext :: fn validate_update_fee
 //@rw R5
     funding: &FundingScope
@@ -93,9 +95,15 @@ impl FeeCtx {
 //@requires
     funding.holder_selected_channel_reserve_satoshis <= 21_000_000_0000_0000,
 //@ensures P C01 a-fee-update-from-the-funder-is-accepted-only-if-it-keeps-the-funder-at-or-above-the-reserve-we-selected-on-our-commitment-and-both-dust-exposures-within-our-limit
-    r is Ok ==> local_stats_at(*self, *funding, new_feerate_per_kw).commitment_stats.counterparty_balance_msat as int >= funding.holder_selected_channel_reserve_satoshis as int * 1000
-        && exists|lim: Option<u32>| local_stats_at(*self, *funding, new_feerate_per_kw).commitment_stats.dust_exposure_msat <= #[trigger] max_dust_exposure(*self, lim)
-            && remote_stats_at(*self, *funding, new_feerate_per_kw).commitment_stats.dust_exposure_msat <= max_dust_exposure(*self, lim),
+    // judged on the commitments as the peer builds them: the HTLCs it knows, no further HTLC, the new feerate, no fee spike
+    r is Ok ==> ({ let lim = limiting_feerate_of(*self, funding.ct);
+        let l = local_stats_at(*self, *funding, false, 0, new_feerate_per_kw, false, lim); let rm = remote_stats_at(*self, *funding, false, 0, new_feerate_per_kw, false, lim);
+        l.commitment_stats.counterparty_balance_msat as int >= funding.holder_selected_channel_reserve_satoshis as int * 1000
+        && l.commitment_stats.dust_exposure_msat <= max_dust_exposure(*self, lim) && rm.commitment_stats.dust_exposure_msat <= max_dust_exposure(*self, lim) }),
+//@mutant fee_update_judged_with_htlcs_the_peer_does_not_know_yet
+    let include_counterparty_unknown_htlcs = false;
+//@with
+    let include_counterparty_unknown_htlcs = true;
 //@mutant funder_may_dip_below_the_reserve
     .checked_sub(funding.holder_selected_channel_reserve_satoshis * 1000)
 //@with
